@@ -368,9 +368,21 @@ package dmap
 //@ ghost var repair_winner Ref
 //@ func (dm *DMap) readRepair(winner *version, versions []*version)
 //@   props C06
-//@   trusted
+//@   flag wired 3
+//@   flag skip nil
+//@   flag frame_assumed
 //@   requires #winner_newest [C06]: winner != nil && winner.entry != nil && forall k int :: 0 <= k && k < len(versions) ==>
 //@                versions[k] != nil && (versions[k].entry != nil ==> winner.entry.timestamp >= versions[k].entry.timestamp)
+//@   requires #hosts: forall k int :: 0 <= k && k < len(versions) ==> versions[k].host != nil
+//@   requires #parts: dm != nil && dm.s != nil && dm.s.parts() && dm.s.primary.count > 0 && dm.s.backup.count > 0 && dm.s.primary.kind == partitions.PRIMARY
+//@   atcall protocol\.NewPutEntry$ requires #a_stale_remote_copy_gets_the_winner [C06]: arg0 == dm.name && arg1 == winner.entry.key &&
+//@                entry.encodes(elems(arg2), off(arg2), len(arg2), winner.entry.key, winner.entry.ttl, winner.entry.timestamp, winner.entry.lastAccess, elems(winner.entry.value), off(winner.entry.value), len(winner.entry.value)) &&
+//@                (value.entry == nil || value.entry.timestamp != winner.entry.timestamp)
+//@   atcall dmap\.DMap\)\.putEntryOnFragment$ requires #a_stale_local_copy_gets_the_winner [C06]: arg2 == winner.entry && (value.entry == nil || value.entry.timestamp != winner.entry.timestamp)
+//@   ghost repair_base := base(versions)
+//@   ghost repair_off := off(versions)
+//@   ghost repair_len := len(versions)
+//@   ghost repair_winner := winner
 //@   ensures #scope: repair_base == base(versions) && repair_off == off(versions) && repair_len == len(versions) && repair_winner == winner
 //@   modifies repair_base, repair_off, repair_len, repair_winner
 
